@@ -217,6 +217,26 @@ def check_lattice(ctx, rng, name, fam, l, reqs, meta):
         ctx.case((name, "remove", tuple(idx.tolist())), nontrivial=0 < len(idx) < nV,
                  sample=dict(case=name, op="remove", removed=idx.tolist()[:8], kept_edges=len(keep)))
         add("remove", r, sorted(set(int(x) for x in rem)), idx=idx.tolist())
+    # ---- remove_vertices: the same selection in the other forms NumPy indexing accepts (a boolean mask, indices counted from the end, a list, narrow dtypes).
+    #      A form that is rejected with an exception is not this property's business; one that is accepted must remove the vertices it names.
+    if nV >= 3:
+        sel = np.sort(rng.choice(nV, max(1, nV // 3), replace=False))
+        try:
+            ref, ref_rem = gu.remove_vertices(l, sel, return_edge_removal=True)
+            mask = np.zeros(nV, dtype=bool); mask[sel] = True
+            for lab, arg in (("boolean mask", mask), ("indices counted from the end", sel - nV), ("list", [int(x) for x in sel]), ("uint8 array", sel.astype(np.uint8)) if nV <= 255 else ("int32 array", sel.astype(np.int32)),
+                             ("mixed signs", np.where(np.arange(len(sel)) % 2 == 0, sel, sel - nV))):
+                try:
+                    got, got_rem = gu.remove_vertices(l, arg, return_edge_removal=True)
+                except Exception:
+                    ctx.count("remove_vertices_form_rejected"); continue
+                if not (got.n_vertices == ref.n_vertices and np.array_equal(got.vertices.positions, ref.vertices.positions) and np.array_equal(got.edges.indices, ref.edges.indices)
+                        and np.array_equal(got.edges.crossing, ref.edges.crossing) and sorted(int(x) for x in got_rem) == sorted(int(x) for x in ref_rem)):
+                    ctx.impl_violation(f"{name}: remove_vertices with the vertices {sel.tolist()} given as {lab} is accepted but does not remove exactly those vertices ({got.n_vertices} vertices left, expected {ref.n_vertices})",
+                                       dict(op="remove", idx=sel.tolist(), form=lab, **rep_base))
+                ctx.case((name, "remove-form", lab), nontrivial=True)
+        except Exception:
+            pass
     # ---- remove_trailing_edges
     rep = lambda what, **kw: ctx.impl_violation(f"{name}: {what}", dict(op="trailing", **rep_base, **kw))
     try:
@@ -302,12 +322,11 @@ def cases_for(ctx, rng):
     def relabel(pos, edges, cross, new_of_old):
         inv = np.argsort(new_of_old)
         return Lattice(pos[inv], np.array(new_of_old)[edges], cross)
-    for t in range(3 if quick else 12):
-        k = 1 + t % 3                                    # tail length
-        m = 4 + t % 2                                    # cycle length
+    # the last entries: tails longer than the rest of the lattice (more peeling rounds than half the vertex count)
+    for t, (k, m) in enumerate([(1 + t % 3, 4 + t % 2) for t in range(3 if quick else 12)] + [(6, 3), (9, 3), (8, 4)] + ([] if quick else [(14, 3), (25, 5)])):
         ang = 2 * np.pi * np.arange(m) / m
         cyc = 0.5 + 0.3 * np.stack([np.cos(ang), np.sin(ang)], axis=1)
-        tail = np.array([[0.5 + 0.3 + 0.05 * (i + 1), 0.5 + 0.01 * (i + 1)] for i in range(k)])       # outwards from cycle vertex 0: no new plaquette (not K1)
+        tail = np.array([[0.5 + 0.3 + 0.19 / (max(k, 3) + 1) * (i + 1), 0.5 + 0.01 * (i + 1)] for i in range(k)])       # outwards from cycle vertex 0: no new plaquette (not K1)
         pos = np.concatenate([cyc, tail])
         edges = np.array([[i, (i + 1) % m] for i in range(m)] + [[0 if i == 0 else m + i - 1, m + i] for i in range(k)])
         cross = np.zeros_like(edges)
